@@ -86,6 +86,41 @@ var scenarios = map[string]scenario{
 		s.N.Receive(s.PreCommit(3, p))
 		return s.W
 	}},
+	// D9: at the first height of a new chain every timer was clamped to zero.
+	"D9-genesis-zero-timers": {Prop: "C08", Key: "D9-genesis-zero-timers", Run: func(keep bool) *sim.World {
+		cfg := soloCfg(4, 0, -1)
+		w := sim.NewWorld(cfg, LabelSrc{"lat": 10}, nil, nil, []*sim.Mon{sim.MonC08()}, keep)
+		sim.RunTimed(w, sim.TimedOpts{Heights: 2, Horizon: 20 * time.Second, MaxEvents: 5000, MaxLat: 10 * time.Millisecond})
+		return w
+	}},
+	// D15 (known finding): a primary that enters its view while processing a recovery message waits a
+	// whole view timeout (by design, issue #74) - the same timeout its backups use - instead of proposing at once.
+	"D15-recovering-primary": {Prop: "C09", Key: "D15-recovering-primary-waits-full-timeout", Run: func(keep bool) *sim.World {
+		s := sim.NewSolo(soloCfg(7, 1000003, -1), &ReplaySrc{}, 4, false, nil, keep)
+		s.N.Start() // height 1000004: primary of view 0 is 5 (silent), of view 1 is 4 = the node
+		var cvs []sim.Payload
+		for _, i := range []int{0, 1, 2, 3, 6} {
+			cvs = append(cvs, s.CV(i, 0, 1))
+		}
+		s.N.Receive(s.Recovery(2, 1, cvs...))
+		if s.V() == 1 && s.N.D.IsPrimary() && s.LastOwn(dbft.PrepareRequestType) == nil && s.N.Timer.D >= s.W.Cfg.TimePerBlock<<2 {
+			s.W.Fail("C09", fmt.Sprintf("primary entered view 1 through a recovery message and armed a %s timer (the backups' view-1 timeout) instead of proposing", s.N.Timer.D), "D15-recovering-primary-waits-full-timeout")
+		}
+		return s.W
+	}},
+	// D11 (known finding): a validator restarted with empty state while primary of an undecided view proposes again.
+	"D11-restarted-primary-reproposes": {Prop: "C09", Key: "D11-restarted-primary-reproposed", Run: func(keep bool) *sim.World {
+		s := sim.NewSolo(soloCfg(4, 3, -1), &ReplaySrc{}, 0, false, nil, keep)
+		s.N.Start() // height 4, primary index 0 = the node: proposes at once
+		p1 := s.LastOwn(dbft.PrepareRequestType)
+		s.Advance(300 * time.Millisecond)
+		s.W.Restart(s.N)
+		p2 := s.LastOwn(dbft.PrepareRequestType)
+		if p1 != nil && p2 != nil && p1.Hash() != p2.Hash() && p1.V == p2.V {
+			s.W.Fail("C09", "a validator restarted with empty state broadcast a second, different proposal for the same height and view", "D11-restarted-primary-reproposed")
+		}
+		return s.W
+	}},
 	// D12: the primary counted an early response naming another proposal.
 	"D12-primary-early-response": {Prop: "C04", Key: "commit-without-prep-quorum", Run: func(keep bool) *sim.World {
 		s := sim.NewSolo(soloCfg(7, 5, -1), &ReplaySrc{}, 0, false, []*sim.Mon{sim.MonC04()}, keep)
